@@ -366,6 +366,7 @@ func (fgen *funcGen) irInvokeTerm(new ir.Terminator, old *ast.InvokeTerm) error 
 	}
 	// The invokee type is always pointer to function type.
 	ptrToSig := types.NewPointer(sig)
+	ptrToSig.AddrSpace = fgen.gen.programAddrSpace()
 	if n, ok := old.AddrSpace(); ok {
 		// The callee is a pointer into the address space of the call.
 		ptrToSig.AddrSpace = irAddrSpace(n)
@@ -399,7 +400,9 @@ func (fgen *funcGen) irInvokeTerm(new ir.Terminator, old *ast.InvokeTerm) error 
 			term.ReturnAttrs[i] = retAttr
 		}
 	}
-	// (optional) Address space.
+	// (optional) Address space; the program address space of the data layout
+	// when none is written.
+	term.AddrSpace = fgen.gen.programAddrSpace()
 	if n, ok := old.AddrSpace(); ok {
 		term.AddrSpace = irAddrSpace(n)
 	}
